@@ -276,6 +276,27 @@ class Engine(ExprMixin, CallMixin, StmtMixin):
             if fn == "edgeof":
                 return T.scalar(T.TUP, T.VObjS.o_edge(o))
             return T.sv_bool(T.VObjS.is_oNode(o) if fn == "is_onode" else T.VObjS.is_oEdge(o))
+        if fn == "finite_subset_law" and not e.args:
+            # brings the scoped axiom card_subset_eq into the queries of the function whose contract mentions it (a trivially true formula
+            # over the axiom's own Skolem symbol; axioms are loaded per query by symbol, DESIGN §3.5)
+            s0 = z3.K(T.I, z3.BoolVal(False))
+            w = TH._subw(s0, s0)
+            return T.sv_bool(w == w)
+        if fn == "comp_of" and len(e.args) == 2:       # comp_of(B, n): reachability class of n under the hyperedges listed in B (no filter)
+            from ..contracts import cc as _cc
+            b, n = self.ev(e.args[0], p), self.ev(e.args[1], p)
+            return T.scalar(T.Set(T.INT), _cc.COMPF(TH.supp_fn(T.TUP)(b.t), TH.members(b.t), self.coerce(n, T.INT).t, z3.BoolVal(True), z3.IntVal(0)))
+        if fn == "closed_under" and len(e.args) == 2:  # closed_under(B, S): the node set S is closed under sharing a hyperedge listed in B
+            from ..contracts import cc as _cc
+            b, st = self.ev(e.args[0], p), self.ev(e.args[1], p)
+            return T.sv_bool(_cc.CLOSEDF(TH.supp_fn(T.TUP)(b.t), z3.BoolVal(True), z3.IntVal(0), self.coerce(st, T.Set(T.INT)).t))
+        if fn == "tpos" and len(e.args) == 2:          # tpos(k, n): position of the member n in the tuple k (k.index(n))
+            from ..contracts import projections as _pr
+            k, n = self.ev(e.args[0], p), self.ev(e.args[1], p)
+            return T.sv_int(_pr.TIDX(k.t, self.coerce(n, T.INT).t))
+        if fn == "members" and len(e.args) == 1:       # members(B): all labels occurring in the tuples of the list B
+            b = self.ev(e.args[0], p)
+            return T.scalar(T.Set(T.INT), TH.members(b.t))
         if fn == "seqpos" and len(e.args) == 2:        # seqpos(l, x): the position of x in the duplicate-free positional list l
             l, x = self.ev(e.args[0], p), self.ev(e.args[1], p)
             if getattr(l, "uidx", None) is None:
@@ -473,6 +494,10 @@ class Engine(ExprMixin, CallMixin, StmtMixin):
         kind = f"loop{tag.rsplit('loop', 1)[1]}:{phase}"
         for name, g in self.eval_clauses(invs, p.env, p, cx).items():
             self.oblige(kind, name, p, g, self.cur.tags.get(name, "observable"))
+            if "staged_invariants" in self.cur.options:
+                # each clause has its own obligation; the later clauses of the same state may use the earlier ones (the conjunction follows
+                # when all of them are discharged), which lets a clause be derived from the new state's other clauses instead of from scratch
+                p.assume(g)
 
     def assume_clauses(self, invs, p, pre_env):
         cx = Cx(old_env=self.entry_env, pre_env=pre_env)
